@@ -160,6 +160,12 @@ class _CacheServiceBase(Generic[CacheValueT]):
                 return obj
             except TypeError:
                 # Object is not hashable, convert it
+                if isinstance(obj, dict):
+                    # Keep the values: iterating a dict only yields its keys
+                    return tuple(
+                        (_make_hashable(key), _make_hashable(value))
+                        for key, value in obj.items()
+                    )
                 if hasattr(obj, '__iter__') and not isinstance(obj, (str, bytes)):
                     # Convert iterables (like numpy arrays) to tuples
                     try:
